@@ -1,7 +1,7 @@
 """C20 — layers are transparent, honour Tower readiness; listeners only observe."""
 from ..core import graph, Call, peel, leaves, show, N
 from ..ready import Ready, is_inner_call, SERVICE_CALL, POLL_READY, CLONE
-from ..util import check_no_panicking_time_arith
+from ..util import check_no_panicking_time_arith, check_clone_variants
 
 EXPLANATION = (
     "Decides structural clauses of C20 on the built MIR of every library crate: (READY) every "
@@ -48,6 +48,8 @@ def site_key(body, extra):
 
 
 def run(facts, tr, rep):
+    _n_cl = check_clone_variants(facts, tr, rep, "C20.CLONE-FAITHFUL")
+    rep.note("hand-written enum Clone arms examined: %d" % _n_cl)
     _n_ops = check_no_panicking_time_arith(facts, tr, rep, "C20.NO-PANIC-ARITH", [b_ for c_ in facts.crates.values() for b_ in c_.bodies])
     rep.note("panicking Instant/Duration operators examined: %d" % _n_ops)
     R = Ready(facts, tr)
